@@ -676,6 +676,9 @@ class Engine:
             return self.lookup_method(head, None, meth, args, st, callee)
         if segs[-1] in self.prog.free:
             return ('mir', self.prog.free[segs[-1]])
+        alias = FREE_ALIASES.get(segs[-1])        # core functions imported by name (`use core::iter::successors;`)
+        if alias and alias in self.prog.free:
+            return ('mir', self.prog.free[alias])
         b = BUILTINS.get(segs[-1])
         if b: return ('builtin', b)
         raise Unsupported('callee ' + callee)
@@ -1275,6 +1278,22 @@ def bi_vec_capacity(eng, st, args, dest, ret_bb, callee=''):
     v = vec_of(eng, st, args[0])
     return ('value', v.cap if isinstance(v.cap, S) else S(v.cap, 'usize'))
 
+def bi_mem_take(eng, st, args, dest, ret_bb, callee=''):
+    r = args[0]
+    old = eng.deref(st, r)
+    if isinstance(old, En) and old.ty == 'Option': new = En('Option', S(0, 'isize'), {0: ()})
+    elif isinstance(old, S): new = S(0 if old.ty != 'bool' else False, old.ty)
+    elif isinstance(old, VecV): new = VecV(S(0, 'usize'), 0, [])
+    else: raise Unsupported('mem::take of %r' % (old,))
+    eng.store_ref(st, r, new)
+    return ('value', old)
+
+def bi_mem_swap(eng, st, args, dest, ret_bb, callee=''):
+    a, b = args
+    va, vb = eng.deref(st, a), eng.deref(st, b)
+    eng.store_ref(st, a, vb); eng.store_ref(st, b, va)
+    return ('value', UNIT)
+
 def bi_drop_fn(eng, st, args, dest, ret_bb, callee=''):
     eng.record_drop(st, args[0] if args else None, True)
     return ('value', UNIT)
@@ -1284,8 +1303,10 @@ def bi_sliceiter_len(eng, st, args, dest, ret_bb, callee=''):
     while isinstance(it, Ref): it = eng.deref(st, it)
     return ('value', eng.binop('Sub', it.f[2], it.f[1]))
 
+FREE_ALIASES = {'successors': 'iter_successors', 'from_fn': 'iter_from_fn'}
+
 BUILTINS = {
-    'drop': bi_drop_fn,
+    'drop': bi_drop_fn, 'take': bi_mem_take, 'swap': bi_mem_swap,
     'size_of': bi_size_of, 'box_assume_init_into_vec_unsafe': bi_box_into_vec,
     'panic': bi_panic, 'panic_fmt': bi_panic, 'assert_failed': bi_panic, 'unwrap_failed': bi_panic,
     'replace': bi_mem_replace,
@@ -1297,7 +1318,7 @@ BUILTIN_METHODS = {
     ('Vec', 'new'): bi_vec_new, ('Vec', 'clear'): bi_vec_clear, ('Vec', 'deref'): bi_identity, ('Vec', 'deref_mut'): bi_identity,
     ('Vec', 'as_slice'): bi_identity, ('Vec', 'with_capacity'): bi_vec_with_capacity, ('Vec', 'capacity'): bi_vec_capacity,
     ('Vec', 'reserve'): bi_vec_reserve, ('Vec', 'reserve_exact'): bi_vec_reserve, ('Vec', 'shrink_to_fit'): bi_vec_shrink, ('Vec', 'pop'): bi_vec_pop, ('SliceIter', 'next'): bi_sliceiter_next, ('SliceIter', 'next_back'): bi_sliceiter_next_back,
-    ('SliceIter', 'len'): bi_sliceiter_len, ('mem', 'drop'): bi_drop_fn,
+    ('SliceIter', 'len'): bi_sliceiter_len, ('mem', 'drop'): bi_drop_fn, ('mem', 'take'): bi_mem_take, ('mem', 'swap'): bi_mem_swap,
     ('Box', 'new_uninit'): bi_box_new_uninit, ('boxed', 'box_assume_init_into_vec_unsafe'): bi_box_into_vec, ('Opq', 'clone'): bi_opq_clone, ('Opq', 'eq'): bi_opq_eq,
     ('[Node<T>]', 'get'): bi_slice_get, ('[Node<T>]', 'get_mut'): bi_slice_get,
     ('[Node<T>]', 'as_ptr_range'): bi_as_ptr_range, ('Vec', 'as_ptr'): bi_as_ptr, ('Vec', 'as_mut_ptr'): bi_as_ptr, ('[Node<T>]', 'as_ptr'): bi_as_ptr,
